@@ -17,16 +17,16 @@ EXPLANATION = (
     'mapped to the matching comparison wrappers, the prefix group of the criteria regex cannot swallow the first character '
     'of a numeric operand (-, .), (the fallback for a prefix that is no operator and the operand order of the check are '
     'decided on values by C15.5); (C15.3) index guards: decision table of the CHOOSE guard at 0, 1, n, n+1 (raises #VALUE! '
-    'outside 1..n, returns values[i-1] inside), every value returned by VLOOKUP is dominated by the not-found (#N/A) and '
-    'column-range guards; (C15.4) a witness workbook for COUNTIF / COUNTIFS: matches in the first and the last row, after '
+    'outside 1..n, returns values[i-1] inside); (C15.4) a witness workbook for COUNTIF / COUNTIFS: matches in the first and the last row, after '
     'long runs of non-matches, criteria over different columns that agree only in some rows (SUMIF / SUMIFS are not '
     'decided: the installed pandas does not support them). (C15.5) parse_criteria(criterion)(cell value) on 16 witness '
     'criteria x cell values through the real operator wrappers and comparison methods: six operators, plain values, texts '
     'case-insensitively also for <>. (C15.6) a witness workbook: MATCH (exact, approximate ascending / descending, repeated'
     ' values, keys below / between / on / above the values, texts), COUNTIF / COUNTIFS with one to four criteria, CHOOSE at'
-    ' and beyond its bounds against hand-worked linear scans.')
-NOT_DECIDED = 'tables beyond the witness columns; SUMIF / SUMIFS (the installed pandas lacks DataFrame.applymap, which they need); VLOOKUP on real pandas frames'
-TRUSTED = ['pandas set_index/loc semantics for VLOOKUP', 'workbook scenarios: pandas storage of range arrays as row-major rows, numpy on Python numbers (IEEE results, 64-bit integer wrap), dateutil.parser.parse rejecting texts that are no dates, openpyxl address arithmetic, inspect.signature built from the FunctionDef', 'typing.Union aliases compare as sets of their members']
+    ' and beyond its bounds, VLOOKUP over a table with keys of several types, a repeated key, texts in another case and every column number '
+    'below, inside and beyond the table, against hand-worked linear scans; 130-row columns against scans computed by the rule.')
+NOT_DECIDED = 'tables beyond the witness columns; SUMIF / SUMIFS (the installed pandas lacks DataFrame.applymap, which they need)'
+TRUSTED = ['workbook scenarios: pandas storage of range arrays as row-major rows, numpy on Python numbers (IEEE results, 64-bit integer wrap), dateutil.parser.parse rejecting texts that are no dates, openpyxl address arithmetic, inspect.signature built from the FunctionDef', 'typing.Union aliases compare as sets of their members']
 
 
 def _reg(ctx, name):
@@ -114,25 +114,8 @@ def rule_3(ctx):
             got = f'{out.end} {out.value!r}'
         ctx.expect(ok, fn, f'CHOOSE({idx}, a, b, c)', f'CHOOSE({idx},a,b,c) gives {got}, expected {"#VALUE!" if want == "raise" else want!r}')
     # MATCH positions are decided end to end by C15.6 (witness workbook)
-    f = _reg(ctx, 'VLOOKUP')
-    fn = f.node
-    p = func_params(fn)
-    rets = value_returns(fn)
-    for r in rets:
-        conds = flow.path_conditions(r, check_kills=False)
-        vd = flow.Deps(fn)
-        nf_guard = any(c.kind == 'guard' and not c.polarity and isinstance(c.test, ast.Compare) and isinstance(c.test.ops[0], ast.NotIn)
-                       and ('@' + p[0]) in vd.closure(names_in(c.test.left)) and any(isinstance(x, ast.Raise) and raise_class(ctx, x) == XLERR + 'NaExcelError' for x in c.origin.body)
-                       for c in conds)
-        ctx.expect(nf_guard, r, f'VLOOKUP `return {ast.unparse(r.value)[:40]}` only after the key was found',
-                   'a value is returned on a path that has not passed the "lookup value not in the first column -> #N/A" guard '
-                   '(VLOOKUP(absent key, table, 1) returns the key itself)')
-        vdeps = flow.Deps(fn)
-        col_guard = any(c.kind == 'guard' and not c.polarity and ('@' + p[2]) in vdeps.closure(names_in(c.test)) and any(
-            isinstance(x, ast.Raise) and is_excel_error_ref(ctx, raise_class(ctx, x)) for x in c.origin.body) for c in conds)
-        ctx.expect(col_guard, r, f'VLOOKUP `return {ast.unparse(r.value)[:40]}` only for a column inside the table',
-                   'a value is returned without the column-index range check')
-    ctx.floor(9, 'CHOOSE critical points, VLOOKUP guards')
+    # VLOOKUP (absent keys, repeated keys, column numbers below, inside and beyond the table) is decided end to end by C15.6 as well
+    ctx.floor(7, 'CHOOSE critical points')
 
 
 SCAN_CELLS = {
@@ -221,12 +204,20 @@ LOOKUP_CELLS = {
     'K4': '=COUNTIFS(C1:C5,">=2",C1:C5,"<5",D1:D5,"<>pear",C1:C5,"<>3")', 'K5': '=COUNTIF(C1:C5,3)', 'K6': '=COUNTIF(C1:C5,"<>3")',
     'K7': '=COUNTIFS(C1:C5,"<4",D1:D5,"apple",C1:C5,">=1")', 'K8': '=COUNTIFS(D1:D5,"=APPLE",C1:C5,">2",C1:C5,"<5",C1:C5,"<>9")', 'K9': '=COUNTIFS(C1:C5,">5")',
     'K10': '=COUNTIF(C1:C5,">=2.5")', 'K11': '=COUNTIFS(C1:C5,"<=3",C1:C5,">=3",C1:C5,"=3")',
+    # VLOOKUP: keys of several types, a repeated key, texts in another case, every column index in and outside the table
+    'Q1': 10, 'R1': 'x', 'S1': 1.5, 'Q2': 20, 'R2': 'y', 'S2': 2.5, 'Q3': 20, 'R3': 'z', 'S3': 3.5, 'Q4': 'key', 'R4': 'w', 'S4': 4.5, 'Q5': True, 'R5': 't', 'S5': 5.5,
+    'V1': '=VLOOKUP(10,Q1:S5,2)', 'V2': '=VLOOKUP(20,Q1:S5,2,FALSE)', 'V3': '=VLOOKUP(20,Q1:S5,3)', 'V4': '=VLOOKUP(99,Q1:S5,2)', 'V5': '=VLOOKUP(10,Q1:S5,4)',
+    'V6': '=VLOOKUP("key",Q1:S5,3)', 'V7': '=VLOOKUP("KEY",Q1:S5,3)', 'V8': '=VLOOKUP(10,Q1:S5,1)', 'V9': '=VLOOKUP(10,Q1:S5,0)', 'V10': '=VLOOKUP(10,Q1:S5,3)+1',
+    'V11': '=VLOOKUP(Q2,Q1:S5,3)', 'V12': '=VLOOKUP(10.0,Q1:S5,3)', 'V13': '=VLOOKUP("10",Q1:S5,3)', 'V14': '=VLOOKUP(10,Q1:S5,-1)', 'V15': '=VLOOKUP(TRUE,Q1:S5,2)',
+    'V16': '=VLOOKUP(1,Q1:S5,2)', 'V17': '=VLOOKUP(30,Q1:S5,2)', 'V18': '=VLOOKUP("ke",Q1:S5,2)', 'V19': '=VLOOKUP(20,Q2:S3,3)', 'V20': '=VLOOKUP(20,Q3:S5,2)',
     'H1': '=CHOOSE(2,"a","b","c")', 'H2': '=CHOOSE(1,A1,A2)', 'H3': '=CHOOSE(3,A1,A2,A4)+1', 'H4': '=CHOOSE(4,"a","b","c")', 'H5': '=CHOOSE(0,"a")',
 }
 LOOKUP_EXPECTED = {
     'M1': 3, 'M2': 3, 'M3': 1, 'M4': 2, 'M5': 4, 'M6': '#N/A', 'M7': 3, 'M8': '#N/A', 'M9': 4, 'M10': 3, 'M11': 1, 'M12': 2, 'M13': 2, 'M14': 2, 'M15': 3,
     'M16': 4, 'M17': 1,
     'K1': 2, 'K2': 2, 'K3': 3, 'K4': 1, 'K5': 1, 'K6': 4, 'K7': 2, 'K8': 2, 'K9': 0, 'K10': 3, 'K11': 1,
+    'V1': 'x', 'V2': 'y', 'V3': 2.5, 'V4': '#N/A', 'V5': '#VALUE!', 'V6': 4.5, 'V7': 4.5, 'V8': 10, 'V9': '#VALUE!', 'V10': 2.5, 'V11': 2.5, 'V12': 1.5, 'V13': '#N/A',
+    'V14': '#VALUE!', 'V15': 't', 'V16': '#N/A', 'V17': '#N/A', 'V18': '#N/A', 'V19': 2.5, 'V20': 'z',
     'H1': 'b', 'H2': 10, 'H3': 31, 'H4': '#VALUE!', 'H5': '#VALUE!',
 }
 
@@ -247,7 +238,7 @@ def rule_6(ctx):
             got = ('error', W.error_code(ctx, got[1]))
         ctx.expect(S.same(got, _as_value(w)), anchor, f'lookup workbook: {LOOKUP_CELLS[a]}',
                    f'{a} = {LOOKUP_CELLS[a]} evaluates to {got!r}, expected {w!r} (A = 10, 20, 20, 30; B = 30, 20, 20, 10; C = 1..5; D = apple, Pear, '
-                   'apple, APPLE, pear; E = ant, bee, cat): the result of the linear scan the function stands for')
+                   'apple, APPLE, pear; E = ant, bee, cat; Q1:S5 = (10,x,1.5), (20,y,2.5), (20,z,3.5), (key,w,4.5), (TRUE,t,5.5)): the result of the linear scan the function stands for')
     # long columns: the scan sees every cell however many there are
     rows = 130
     col_n = [i % 5 for i in range(1, rows + 1)]
@@ -271,14 +262,14 @@ def rule_6(ctx):
         ctx.expect(S.same(got, _as_value(w)), anchor, f'lookup workbook, {rows} rows: {f}',
                    f'{a} = {f} evaluates to {got!r}, expected {w!r} (N = row mod 5, O = row mod 3 for rows 1..{rows}): the result of the linear scan over every '
                    'cell of the ranges, however long they are')
-    ctx.floor(35, 'lookup / criteria cells')
+    ctx.floor(55, 'lookup / criteria cells')
 
 
 RULES = [
     ('C15.1', 'selectors select (parameter influence on returned values)', rule_1),
     ('C15.2', 'criteria operator table, prefix regex, fallback', rule_2),
-    ('C15.3', 'index guards: CHOOSE decision table, MATCH position, VLOOKUP guards dominate returns', rule_3),
+    ('C15.3', 'index guards: CHOOSE decision table', rule_3),
     ('C15.4', 'every cell is tested', rule_4),
     ('C15.5', 'criteria decision table on witness criteria and cell values', rule_5),
-    ('C15.6', 'witness workbook: MATCH, COUNTIF(S), CHOOSE against hand-worked linear scans', rule_6),
+    ('C15.6', 'witness workbook: MATCH, COUNTIF(S), CHOOSE, VLOOKUP against hand-worked linear scans', rule_6),
 ]
